@@ -56,12 +56,19 @@ def cmdInfo : Nat := 0x10
 def cmdRead : Nat := 0x11
 def cmdWrite : Nat := 0x12
 
+/-- The size Get FRU Inventory Area Info reports for an inventory area of `n` bytes: "FRU Inventory area size in
+bytes", a 16-bit field (§34.1), so 65535 is the most it can say.  The offset of Read / Write FRU Data is 16 bits
+too and addresses bytes 0..FFFFh: a device may hold a full 64 KiB (65536 bytes); it then reports FFFFh and its
+last byte is reachable only through an explicit range (offset + count = 10000h), not through "the whole
+inventory area" (which is what the device reports). -/
+def infoSize (n : Nat) : Nat := if n > 65535 then 65535 else n
+
 def respondInfo (d : FruDev) (p : List Nat) : FruDev × List Nat :=
   match p with
   | [id] =>
     match d.get id with
     | none => (d, [ccNotPresent])
-    | some c => (d, [0, c.length % 256, c.length / 256 % 256, 0])
+    | some c => (d, [0, infoSize c.length % 256, infoSize c.length / 256 % 256, 0])
   | _ => (d, [ccInvalidLength])
 
 /-- how many bytes a read of `cnt` gets (only called when it is not rejected) -/
